@@ -26,7 +26,9 @@ TARGET_SS = "x = G\nd = x + LX\nLX = x(k-1)\nMaxTime = 2\nErr_Tolerance = 0.01"
 TARGETS = {"plain": (TARGET, {}), "user-function": (TARGET_FN, {"fn": lambda v: 2 * v + 1}), "steady-state-init": (TARGET_SS, {})}
 OTHER_FN = "a = 0.5*a + fn(3)\nb = a + y\ny = 2\nx = 7\nMaxTime = 2"
 OTHER = "a = 0.5*a + 3\nb = a + y\ny = 2\nx = 7\nMaxTime = 2"
-OPS = ['other-model', 'other-solver', 'logs-on', 'logs-off', 'trace', 're-solve', 're-parse', 'solver-between-parse-and-solve', 'target-first']
+OTHER_LONG = "a = 0.5*a + 3\nb = a + y\ny = 2\nx = 7\nMaxTime = 4"       # previous block with a longer / shorter horizon than the target block
+OTHER_SHORT = "a = 0.5*a + 3\nb = a + y\ny = 2\nx = 7\nMaxTime = 1"
+OPS = ['other-model', 'other-solver', 'logs-on', 'logs-off', 'trace', 're-solve', 're-parse', 're-parse-longer-horizon', 're-parse-shorter-horizon', 'solver-between-parse-and-solve', 'target-first']
 MID = "x = 0.25*LX + 9\nd = x - 1\nLX = x(k-1)\nG = 3\nMaxTime = 2"      # same variable names as the target blocks, other equations
 
 
@@ -113,9 +115,9 @@ def history_case(item):
                 es.TraceStep = 1
             elif op == 're-solve':
                 resolve = True
-            elif op == 're-parse':
+            elif op in ('re-parse', 're-parse-longer-horizon', 're-parse-shorter-horizon'):
                 # the solver object was used for another block before it is given the target block
-                es.ParseString(OTHER)
+                es.ParseString({'re-parse': OTHER, 're-parse-longer-horizon': OTHER_LONG, 're-parse-shorter-horizon': OTHER_SHORT}[op])
                 es.SolveEquation()
             elif op == 'target-first':
                 pass
@@ -197,7 +199,7 @@ import sys, os, tempfile, shutil
 from fractions import Fraction as F
 from sfc_models.equation_solver import EquationSolver
 from sfc_models.utils import Logger
-from vf.props.c17 import TARGETS, OTHER, OTHER_FN, MID, build_other_model
+from vf.props.c17 import TARGETS, OTHER, OTHER_LONG, OTHER_SHORT, OTHER_FN, MID, build_other_model
 hist = %(hist)r
 TARGET, FUNCS = TARGETS[%(tname)r]
 vals = {k: float(F(v)) for k, v in %(vals)r.items()}
@@ -222,7 +224,7 @@ for op in hist:
     elif op == 'logs-off': Logger.cleanup()
     elif op == 'trace': es.TraceStep = 1
     elif op == 're-solve': resolve = True
-    elif op == 're-parse': es.ParseString(OTHER); es.SolveEquation()
+    elif op.startswith('re-parse'): es.ParseString({'re-parse': OTHER, 're-parse-longer-horizon': OTHER_LONG, 're-parse-shorter-horizon': OTHER_SHORT}[op]); es.SolveEquation()
 try:
     es.ParseString(TARGET)
     if 'solver-between-parse-and-solve' in hist:
@@ -379,7 +381,7 @@ def run(tier, seed):
         else:
             chk.ob('sat' if o['viol'] else 'unsat', what, distinct=tuple(o['hist']) + (o['target'],))
         if o['viol']:
-            cls = 're-parse-remnants' if 're-parse' in o['hist'] and ('reported variables' in o['viol']['why'] or 'KeyError' in o['viol']['why']) else 'history:%r' % (o['hist'],)
+            cls = 're-parse-remnants' if any(h_.startswith('re-parse') for h_ in o['hist']) and ('reported variables' in o['viol']['why'] or 'KeyError' in o['viol']['why']) else 'history:%r' % (o['hist'],)
             if o['target'] != 'plain' and 'trace' in o['hist'] and 'raises' in o['viol']['why']:
                 cls = 'trace-with-user-function-crashes'
             chk.violation(cls, what + ': ' + o['viol']['why'], REPLAY % dict(hist=o['hist'], vals=o['viol']['vals'], tname=o['target']))
